@@ -44,13 +44,14 @@ func smallCrashConfig(rng *rand.Rand, syncWrites bool) core.Config {
 // crashKeys builds a small key set: one overflow chain (>31 keys in a bucket), identical-hash groups, plain keys.
 func crashKeys(rng *rand.Rand, seed uint32) *core.KeySet {
 	spec := core.KeySpec{SameHashGroups: 1, SameHashSize: 3, Plain: 6 + rng.Intn(10)}
-	switch rng.Intn(3) {
-	case 0:
-		spec.Chain16 = 34 + rng.Intn(8)
-	case 1:
-		spec.Chain3 = 40 + rng.Intn(20)
+	switch rng.Intn(4) {
+	case 0, 1:
+		spec.Chain16 = 34 + rng.Intn(8) // one bucket chain with an overflow bucket
+	case 2:
+		spec.Chain16 = 66 + rng.Intn(6) // two overflow buckets
+		spec.Plain = 4
 	default:
-		spec.Plain += 10
+		spec.Chain3 = 40 + rng.Intn(20)
 	}
 	return core.GenKeys(rng, seed, spec)
 }
